@@ -74,6 +74,15 @@ def tombstone_same_task(r, F):
     t = tf[0]
     ap = t.calls_to(r"tombstone::TombstoneLog::append$")[0]
     r.require(bool(asyncs.awaited_try(F, t, ap.idx)), t, "TombstoneLog::append(..).await?", "a failed log append fails the io task", "the result of appending tombstones to the log is dropped", ln=ap.term.ln)
+    # every tombstone of the batch is appended: the iterator handed to append is the whole `tombstone_infos` (mapped to the tombstone),
+    # not a filtered / truncated view — "not indexed yet" does not mean "nothing on its way to disk"
+    asl = backslice(t, ap.term.args[1], "prov", extra_transparent=[r"iter::Iterator::\w+$", r"slice::<impl \[T\]>::iter$", r"\[T\]>::iter$", r"Vec::<T, A>::iter$", r"Deref::deref$"])
+    adaptors = sorted({tt.callee.rsplit("::", 1)[-1] for _, tt in asl.calls if tt.callee and re.search(r"iter::Iterator::\w+$", tt.callee)})
+    bad = [a for a in adaptors if a not in ("map", "cloned", "copied", "by_ref", "into_iter", "rev", "inspect", "chain", "enumerate", "peekable")]
+    whole = bool(asl.upvars & mir.upvars_from_param(F, t, 0)) or any("tombstone" in u for u in asl.upvars)
+    r.require(not bad and whole, t, "append receives every tombstone of the batch", "iterator adaptors between tombstone_infos and append: %s" % adaptors,
+              "only a filtered / truncated part of the batch's tombstones is appended to the log (%s): a delete acknowledged as flushed is not durable, and after a restart the deleted "
+              "value is readable again" % bad, ln=ap.term.ln)
     # that future and the block writes are joined into the single spawned task
     tj = sub.calls_to(r"future::try_join$|try_join::try_join$|::try_join$")
     sp = sub.calls_to(r"spawn::Spawner::spawn$")
